@@ -250,10 +250,311 @@ def rule_longindex(prog, fixture=False):
     return r
 
 
+# ---------------------------------------------------------------- R-C08-3
+def _deref_chain(e):
+    """For **input / *p : returns the innermost pointer variable expression and depth."""
+    e = strip_all(e)
+    depth = 0
+    while e is not None and e.get("k") == "UnaryOperator" and e.get("op") == "*":
+        depth += 1
+        e = strip_all(e["c"][0])
+    return e, depth
+
+
+def rule_cursor_discipline(prog, fixture=False):
+    r = RuleResult("R-C08-3", "token decoders: every byte read through the input cursor is dominated by a guard "
+                   "that enough bytes remain, and the cursor and the remaining-length counter move together",
+                   floor=0 if fixture else 5)
+    for fn in prog.functions.values():
+        # (cursor, length) pairs: (const unsigned char **input, unsigned char *len) parameters
+        cur = [p for p in fn.params if (p.get("ct") or p.get("t") or "").replace(" ", "") in
+               ("constunsignedchar**", "unsignedcharconst**")]
+        ln = [p for p in fn.params if (p.get("ct") or p.get("t") or "").replace(" ", "") == "unsignedchar*"]
+        if not (cur and ln):
+            continue
+        cd, ld = cur[0]["d"], ln[0]["d"]
+        g = Guards(fn)
+        # local aliases of *input
+        aliases = set()
+        for v in fn.walk():
+            if v.get("k") == "VarDecl" and v.get("c"):
+                e, depth = _deref_chain(v["c"][0])
+                if depth == 1 and e is not None and e.get("k") == "DeclRefExpr" and e.get("d") == cd:
+                    aliases.add(v["d"])
+
+        def remaining_at_least(node, need):
+            """must-facts imply *len >= need"""
+            for atom, truth in (g.truths(node) or []):
+                a, depth = _deref_chain(atom)
+                if truth and depth == 1 and a is not None and a.get("d") == ld and need <= 1:
+                    return True
+            for l, rel, rr in (g.cmps(node) or []):
+                a, depth = _deref_chain(l)
+                if depth == 1 and a is not None and a.get("k") == "DeclRefExpr" and a.get("d") == ld:
+                    k = folded(rr)
+                    if k is None:
+                        continue
+                    if (rel == ">=" and k >= need) or (rel == ">" and k + 1 >= need) or (rel == "==" and k >= need) \
+                            or (rel == "!=" and k == 0 and need <= 1):
+                        return True
+            return False
+        k = 0
+        for n in fn.walk():
+            need = None
+            if n.get("k") == "UnaryOperator" and n.get("op") == "*":
+                e, depth = _deref_chain(n)
+                if depth == 2 and e is not None and e.get("k") == "DeclRefExpr" and e.get("d") == cd:
+                    # only the outermost ** (not the inner *input on its own)
+                    par = fn.parent(n)
+                    need = 1
+            elif n.get("k") == "ArraySubscriptExpr":
+                b, depth = _deref_chain(n["c"][0])
+                idx = folded(n["c"][1])
+                if idx is not None and b is not None and b.get("k") == "DeclRefExpr" and \
+                        ((depth == 1 and b.get("d") == cd) or (depth == 0 and b.get("d") in aliases)):
+                    need = idx + 1
+            if need is None:
+                continue
+            # skip when this is an lvalue being incremented (++*input handled below)
+            par = fn.parent(n)
+            if par is not None and par.get("k") == "UnaryOperator" and par.get("op") in ("++", "--"):
+                continue
+            k += 1
+            ok = remaining_at_least(n, need)
+            key = "%s::%s::read#%d(%s)" % (fn.relfile(), fn.qn, k, show(n))
+            r.add(key, fn.loc(n), ok, "guarded: at least %d byte(s) remain" % need if ok else
+                  "`%s` reads input byte %d beyond the cursor without a dominating check that %d byte(s) remain in the "
+                  "line: a token cut off by the end of the line reads past the data" % (show(n), need - 1, need))
+        # cursor and counter move together (per basic block)
+        for bid in fn.cfg.reachable():
+            dc = dl = 0
+            nodes = []
+            for n in flow.element_nodes(fn, bid):
+                def delta(n, target_d):
+                    """signed change applied to *<target>"""
+                    kk = n.get("k")
+                    if kk == "UnaryOperator" and n.get("op") in ("++", "--"):
+                        e, depth = _deref_chain(n["c"][0])
+                        if depth == 1 and e is not None and e.get("d") == target_d:
+                            return 1 if n["op"] == "++" else -1
+                    if kk == "CompoundAssignOperator" and n.get("op") in ("+=", "-="):
+                        e, depth = _deref_chain(n["c"][0])
+                        if depth == 1 and e is not None and e.get("d") == target_d and folded(n["c"][1]) is not None:
+                            return folded(n["c"][1]) * (1 if n["op"] == "+=" else -1)
+                    if kk == "BinaryOperator" and n.get("op") == "=":
+                        e, depth = _deref_chain(n["c"][0])
+                        if depth == 1 and e is not None and e.get("d") == target_d:
+                            rhs = strip_all(n["c"][1])
+                            if rhs.get("k") == "BinaryOperator" and rhs.get("op") in ("-", "+") and folded(rhs["c"][1]) is not None:
+                                e2, d2 = _deref_chain(rhs["c"][0])
+                                if d2 == 1 and e2 is not None and e2.get("d") == target_d:
+                                    return folded(rhs["c"][1]) * (1 if rhs["op"] == "+" else -1)
+                            return "?"
+                    return 0
+                a, b = delta(n, cd), delta(n, ld)
+                if a == "?" or b == "?":
+                    dc = "?"
+                    nodes.append(n)
+                    continue
+                if a or b:
+                    nodes.append(n)
+                if dc != "?":
+                    dc += a
+                    dl += b
+            if nodes:
+                key = "%s::%s::advance@%s" % (fn.relfile(), fn.qn, fn.loc(nodes[0]).split(":")[-1])
+                ok = dc != "?" and dc == -dl
+                r.add(key, fn.loc(nodes[0]), ok, "cursor %+d, remaining %+d" % (dc, dl) if ok else
+                      "the cursor moves by %s but the remaining-length counter by %s in the same step: the two get out of "
+                      "step and later guards no longer protect the reads" % (dc, dl))
+    # callers that own the cursor and counter as locals and lend them out by address
+    for fn in prog.functions.values():
+        pairs = set()
+        for n in fn.walk():
+            if n.get("k") == "CallExpr" and n.get("fn"):
+                ts = prog.resolve(fn, n["fn"])
+                for t in ts:
+                    ci = [i for i, p_ in enumerate(t.params) if (p_.get("ct") or p_.get("t") or "").replace(" ", "") in
+                          ("constunsignedchar**", "unsignedcharconst**")]
+                    li = [i for i, p_ in enumerate(t.params) if (p_.get("ct") or p_.get("t") or "").replace(" ", "") == "unsignedchar*"]
+                    a = call_args(n)
+                    if ci and li and max(ci[0], li[0]) < len(a):
+                        x, y = strip_all(a[ci[0]]), strip_all(a[li[0]])
+                        if x.get("k") == "UnaryOperator" and x.get("op") == "&" and y.get("k") == "UnaryOperator" and y.get("op") == "&":
+                            xv, yv = strip_all(x["c"][0]), strip_all(y["c"][0])
+                            if xv.get("k") == "DeclRefExpr" and yv.get("k") == "DeclRefExpr":
+                                pairs.add((xv["d"], yv["d"], xv["n"], yv["n"]))
+        if not pairs:
+            continue
+        g = Guards(fn)
+        for cd, ld, cn, lnm in pairs:
+            k = 0
+            for n in fn.walk():
+                if n.get("k") == "UnaryOperator" and n.get("op") == "*":
+                    inner = strip_all(n["c"][0])
+                    if inner.get("k") == "UnaryOperator" and inner.get("op") in ("++", "--"):
+                        inner = strip_all(inner["c"][0])
+                    if inner.get("k") == "DeclRefExpr" and inner.get("d") == cd:
+                        k += 1
+                        ok = False
+                        for atom, truth in (g.truths(n) or []):
+                            a = strip_all(atom)
+                            if truth and a.get("k") == "DeclRefExpr" and a.get("d") == ld:
+                                ok = True
+                        for l, rel, rr in (g.cmps(n) or []):
+                            a = strip_all(l)
+                            if a.get("k") == "DeclRefExpr" and a.get("d") == ld and folded(rr) is not None and \
+                                    ((rel == ">" and folded(rr) >= 0) or (rel == ">=" and folded(rr) >= 1) or (rel == "!=" and folded(rr) == 0)):
+                                ok = True
+                        key = "%s::%s::read#%d(*%s)" % (fn.relfile(), fn.qn, k, cn)
+                        r.add(key, fn.loc(n), ok, "guarded by %s != 0" % lnm if ok else
+                              "`%s` reads a byte of the line without a dominating check that `%s` is non-zero" % (show(n), lnm))
+            for bid in fn.cfg.reachable():
+                dc = dl = 0
+                first = None
+                for n in flow.element_nodes(fn, bid):
+                    if n.get("k") == "UnaryOperator" and n.get("op") in ("++", "--"):
+                        t = strip_all(n["c"][0])
+                        if t.get("k") == "DeclRefExpr" and t.get("d") == cd:
+                            dc += 1 if n["op"] == "++" else -1
+                            first = first or n
+                        if t.get("k") == "DeclRefExpr" and t.get("d") == ld:
+                            dl += 1 if n["op"] == "++" else -1
+                            first = first or n
+                if first is not None:
+                    key = "%s::%s::advance@%s" % (fn.relfile(), fn.qn, fn.loc(first).split(":")[-1])
+                    r.add(key, fn.loc(first), dc == -dl, "cursor %+d, remaining %+d" % (dc, dl) if dc == -dl else
+                          "`%s` moves by %d but `%s` by %d in the same step" % (cn, dc, lnm, dl))
+    return r
+
+
+# ---------------------------------------------------------------- R-C08-4
+def _array_extent(e):
+    x = e
+    while x is not None and x.get("k") in ("ImplicitCastExpr", "ParenExpr"):
+        if x.get("ck") == "ArrayToPointerDecay":
+            t = x["c"][0].get("ct") or x["c"][0].get("t") or ""
+            import re as _re
+            m = _re.search(r"\[(\d+)\]", t)
+            if m:
+                return int(m.group(1))
+        x = x["c"][0] if x.get("c") else None
+    return None
+
+
+def _interval(fn, g, at, e, depth=0):
+    """[lo, hi] of an integer expression at node `at` from its type and the must-facts there."""
+    e0 = e
+    e = strip(e)
+    if e is None or depth > 6:
+        return None
+    v = folded(e)
+    if v is not None:
+        return (v, v)
+    k = e.get("k")
+    if k in ("ImplicitCastExpr", "CStyleCastExpr", "ParenExpr") and e.get("c"):
+        inner = _interval(fn, g, at, e["c"][0], depth + 1)
+        w, sg = e.get("w"), e.get("sg")
+        if inner and w:
+            lo, hi = inner
+            tlo, thi = (-(1 << (w - 1)), (1 << (w - 1)) - 1) if sg else (0, (1 << w) - 1)
+            if tlo <= lo and hi <= thi:
+                return inner
+        if w:
+            return ((-(1 << (w - 1)), (1 << (w - 1)) - 1) if sg else (0, (1 << w) - 1))
+        return None
+    if k == "BinaryOperator" and e.get("op") in ("-", "+"):
+        a = _interval(fn, g, at, e["c"][0], depth + 1)
+        b = _interval(fn, g, at, e["c"][1], depth + 1)
+        if a and b:
+            return (a[0] - b[1], a[1] - b[0]) if e["op"] == "-" else (a[0] + b[0], a[1] + b[1])
+        return None
+    if k == "DeclRefExpr" and e.get("w"):
+        w, sg = e["w"], e.get("sg")
+        lo, hi = (-(1 << (w - 1)), (1 << (w - 1)) - 1) if sg else (0, (1 << w) - 1)
+        for l, rel, rr in (g.cmps(at) or []):
+            if strip_all(l).get("k") == "DeclRefExpr" and strip_all(l).get("d") == e.get("d"):
+                c = folded(rr)
+                if c is None:
+                    continue
+                if rel == ">":
+                    lo = max(lo, c + 1)
+                elif rel == ">=":
+                    lo = max(lo, c)
+                elif rel == "<":
+                    hi = min(hi, c - 1)
+                elif rel == "<=":
+                    hi = min(hi, c)
+                elif rel == "==":
+                    lo, hi = c, c
+                elif rel == "!=" and c == lo:
+                    lo = c + 1
+        for atom, truth in (g.truths(at) or []):
+            a = strip_all(atom)
+            if truth and a.get("k") == "DeclRefExpr" and a.get("d") == e.get("d") and lo == 0:
+                lo = 1
+        return (lo, hi)
+    return None
+
+
+def rule_index_ranges(prog, fixture=False):
+    r = RuleResult("R-C08-4", "input-dependent array subscripts and fread lengths in the decoders stay inside the "
+                   "array (type-range intervals refined by dominating comparisons)", floor=0 if fixture else 4)
+    for fn in prog.functions.values():
+        if not fn.relfile().endswith(("lines.c", "decoder.c")) and not fixture:
+            continue
+        g = None
+        k = 0
+        # pointer locals that only ever alias arrays of a known extent
+        ptr_extent = {}
+        for n in fn.walk():
+            if n.get("k") == "BinaryOperator" and n.get("op") == "=" and strip_all(n["c"][0]).get("k") == "DeclRefExpr":
+                ext = _array_extent(n["c"][1])
+                d = strip_all(n["c"][0])["d"]
+                if ext is not None:
+                    ptr_extent[d] = min(ext, ptr_extent.get(d, ext))
+                elif folded(n["c"][1]) != 0:
+                    ptr_extent[d] = -1
+        for n in fn.walk():
+            if n.get("k") == "ArraySubscriptExpr":
+                ext = _array_extent(n["c"][0])
+                if ext is None:
+                    b = strip_all(n["c"][0])
+                    if b.get("k") == "DeclRefExpr" and ptr_extent.get(b.get("d"), -1) > 0:
+                        ext = ptr_extent[b["d"]]
+                if ext is None:
+                    continue
+                if folded(n["c"][1]) is not None:
+                    iv = (folded(n["c"][1]),) * 2
+                else:
+                    g = g or Guards(fn)
+                    iv = _interval(fn, g, n, n["c"][1])
+                k += 1
+                key = "%s::%s::%s" % (fn.relfile(), fn.qn, show(n))
+                ok = iv is not None and 0 <= iv[0] and iv[1] < ext
+                r.add(key, fn.loc(n), ok, "index in [%d,%d], array of %d" % (iv[0], iv[1], ext) if ok else
+                      "`%s`: the index can be %s, outside the array of %d elements" %
+                      (show(n), ("anything" if iv is None else "in [%d,%d]" % iv), ext))
+            elif n.get("k") == "CallExpr" and notpl(n.get("q") or "") == "fread":
+                a = call_args(n)
+                ext = _array_extent(a[0])
+                if ext is None:
+                    continue
+                g = g or Guards(fn)
+                s1, s2 = _interval(fn, g, n, a[1]), _interval(fn, g, n, a[2])
+                k += 1
+                key = "%s::%s::fread(%s)" % (fn.relfile(), fn.qn, show(a[0]))
+                ok = s1 is not None and s2 is not None and s1[1] * s2[1] <= ext
+                r.add(key, fn.loc(n), ok, "at most %d bytes into %d" % (s1[1] * s2[1], ext) if ok else
+                      "fread may store more than the %d bytes of `%s`" % (ext, show(a[0])))
+    return r
+
+
 def run(ctx):
     prog = ctx.prog("basic", "N")
     res = [c19.rule_uninit(ctx, ["basic"], rule_id="R-C08-1"),
-           rule_option_tables(prog), rule_exit_status(prog), rule_diagnosed_failures(prog), rule_longindex(prog)]
+           rule_option_tables(prog), rule_exit_status(prog), rule_diagnosed_failures(prog), rule_longindex(prog),
+           rule_cursor_discipline(prog), rule_index_ranges(prog)]
     # the same table rule applies to dfs's global options
     dfs = ctx.prog("dfs", "N")
     r2 = rule_option_tables(dfs)
